@@ -662,6 +662,11 @@ impl Sim {
             l.dump_every = l.dump_every.max(1) * 4;
         }
         let n = self.reps.len();
+        if let Some(fs) = &self.fs {
+            for r in 0..n {
+                fs.disarm(r);
+            }
+        }
         for r in 0..n {
             if self.crashed[r] {
                 self.step_restart(r);
